@@ -74,3 +74,32 @@ Theorem exactly_one_grpc_status :
   Some (match e with None => 0 | Some x => e_code x end).
 Proof. exact exactly_one_grpc_status_lemma. Qed.
 Print Assumptions exactly_one_grpc_status.
+
+(* A relayed upstream error: the headers of the upstream RESPONSE, which the
+   error carries as metadata, do not describe the response this handler writes.
+   Content-Type, Content-Length and Content-Encoding (and whatever else
+   mergeMetadataHeaders leaves out) reach none of the three carriers of an
+   error's metadata; under those names the response holds what the handler
+   itself put there. *)
+Theorem relayed_message_headers_stay_off_the_wire :
+  forall (D : Type) (sm : N -> bytes -> list D -> bytes) (wm : bytes -> bytes -> list D -> bytes)
+         (em : option (bytes * bytes * list D) -> hmap -> bytes)
+         (header trailer : hmap) (e : err D) (k : bytes),
+  message_header k = true ->
+  (~ reserved_grpc k -> values k (grpc_error_to_trailer D sm trailer (Some e)) = values k trailer) /\
+  (let '(_, hdr, _) := connect_unary_error_response D wm header trailer e in
+   values k hdr = values k header ++ values k (prefix_all connect_unary_trailer_prefix trailer)) /\
+  (exists md, connect_end_stream D em trailer (Some e) =
+                em (Some (code_string (e_code e), e_msg e, e_details e)) md /\
+              values k md = values k trailer).
+Proof. exact relayed_message_headers_lemma. Qed.
+Print Assumptions relayed_message_headers_stay_off_the_wire.
+
+(* ... and the three names that would contradict the framing of this response are among them
+   (decided on the list extracted from mergeMetadataHeaders in /repo's header.go) *)
+Theorem framing_headers_are_message_headers :
+  message_header hdr_content_type = true /\
+  message_header hdr_connect_unary_encoding = true /\
+  message_header [x43; x6f; x6e; x74; x65; x6e; x74; x2d; x4c; x65; x6e; x67; x74; x68] = true. (* "Content-Length" *)
+Proof. vm_compute. repeat split. Qed.
+Print Assumptions framing_headers_are_message_headers.
